@@ -931,6 +931,58 @@ func ruleC11Sem(p *Program, r *Run) {
 			return true
 		})
 	}
+	// the traversal keeps nothing between or across calls: a visit function may itself call Walk, and two traversals
+	// may run at once, so every package-level variable the traversal code touches must be read-only
+	{
+		shared := map[*types.Var]token.Pos{}
+		for _, root := range regions {
+			ast.Inspect(root, func(n ast.Node) bool {
+				id, ok := n.(*ast.Ident)
+				if !ok {
+					return true
+				}
+				v, ok := info.Uses[id].(*types.Var)
+				if !ok || v.Pkg() == nil || v.Parent() != v.Pkg().Scope() {
+					return true
+				}
+				readOnly := p.globalNeverWritten(v)
+				switch par := p.Parent(id).(type) {
+				case *ast.UnaryExpr:
+					if par.Op == token.AND {
+						readOnly = false
+					}
+				case *ast.SelectorExpr:
+					// a method with a pointer receiver called on the variable (a pool, a mutex-guarded cache)
+					if par.X == ast.Expr(id) {
+						if sel := info.Selections[par]; sel != nil && sel.Kind() == types.MethodVal {
+							if sig, ok := sel.Obj().Type().(*types.Signature); ok && sig.Recv() != nil {
+								if _, ptr := sig.Recv().Type().(*types.Pointer); ptr {
+									readOnly = false
+								}
+							}
+						}
+					}
+				}
+				if !readOnly {
+					if _, dup := shared[v]; !dup {
+						shared[v] = id.Pos()
+					}
+				}
+				return true
+			})
+		}
+		var vs []*types.Var
+		for v := range shared {
+			vs = append(vs, v)
+		}
+		sort.Slice(vs, func(i, j int) bool { return shared[vs[i]] < shared[vs[j]] })
+		for _, v := range vs {
+			r.Fail("C11/once", fn+" shares "+v.Name()+" between calls", p.Pos(shared[v]), "the traversal uses the package-level variable "+v.Name()+", which is written or handed out for writing: a visit function that itself calls Walk, or two traversals at the same time, work on the same storage, so pending nodes of one are overwritten by the other")
+		}
+		if len(vs) == 0 {
+			r.PassNT("C11/once", fn+" keeps no state outside the call", p.Pos(fd.Pos()), "no writable package-level variable is used by the traversal code")
+		}
+	}
 	// loop condition: runs while the worklist is non-empty
 	condOK := false
 	if fs, ok := c.mainLoop.(*ast.ForStmt); ok && fs.Cond != nil && fs.Init == nil && fs.Post == nil {
